@@ -52,6 +52,7 @@ def judge(acc, root, m, cc, enc, d, tag):
             ctx = oracle.enc_context(r.events, root, enc, cc)
             fp["requested"] = ctx["requested"]
             fp["area_can_encrypt"] = ctx["area_can_encrypt"]
+            fp["failed_response"] = ctx["failed_response"]
             fp["inconsistent"] = ctx["requested"] != ctx["response_sessions_encrypt"]
         acc.violation(fp, d(), f"strict decoding as {root} raised {r.kind} in {r.details.get('where')}: {r.details.get('msg')}", size=len(m))
     elif r.kind not in oracle.DOCUMENTED:
@@ -119,6 +120,10 @@ def run_unit(unit):
             n += 1
             acc.count("family:cross")
             judge(acc, t, c.b, None, None, lambda: {"harness": "arbitrary", "root": t, "cc": None, "enc": False, "input": c.b.hex(), "fault": {"fault": "cross", "encoding_of": label}}, "cross")
+            if len(c.b) <= 12 and t not in ("Command", "CommandResponseStream"):
+                # the encryption flag is an argument of the API for every type
+                acc.count("family:cross-flag")
+                judge(acc, t, c.b, None, True, lambda: {"harness": "arbitrary", "root": t, "cc": None, "enc": True, "input": c.b.hex(), "fault": {"fault": "cross-flag", "encoding_of": label}}, "cross")
         acc.sample({"unit": unit["label"], "inputs": n, "what": "default encodings of all other roots decoded as " + t}, cap=1)
     else:
         corpus = [(l, c) for l, c in default_encodings(seed) if c.root in ("Response", "Command") or unit["tier"] == "thorough"]
